@@ -103,12 +103,15 @@ class FlatMieContribution(Contribution):
 
         bottom_pressure = self.mieBottomPressure
         if bottom_pressure < 0:
-
             bottom_pressure = pressure_levels.max()
+        else:
+            bottom_pressure = np.log10(bottom_pressure)
 
-        top_pressure = np.log10(self.mieTopPressure)
+        top_pressure = self.mieTopPressure
         if top_pressure < 0:
             top_pressure = pressure_levels.min()
+        else:
+            top_pressure = np.log10(top_pressure)
 
         P_left = pressure_levels[:-1]
         P_right = pressure_levels[1:]
